@@ -148,6 +148,8 @@ def run_kernel_item(item):
                 for (tag, neg) in post(item, dict((t, v) for (t, v) in lf.obs), lf):
                     obls.append(('spec', neg, tag, list(lf.pc), variables))
                     owner.append(li)
+                    if tag not in out.setdefault('spec_tags', []):
+                        out['spec_tags'].append(tag)
             out['contracts_used'] = out.get('contracts_used', 0) + lf.user.get('contracts_used', 0)
             if not reach:
                 # reachability twin: the path that reaches the end of the harness is feasible
@@ -341,6 +343,21 @@ class KernelCheck(object):
             what = 'assertion %s fails in %s%s with %s' % (o['tag'], r['entry'], tuple(r['args']),
                                                            [(n, v) for (n, v, _) in nondet])
         elif o['kind'] == 'contract-pre':
+            # the contract does not cover this input: fall back to the real code on the concrete input
+            rc, lines, err = self._replay(r['entry'], r['args'], nondet, False)
+            failed = [ln.split(' ', 1)[1] for ln in lines if ln.startswith('ASSERT-FAILED ')]
+            obs = parse_obs(lines)
+            nd = dict((n, v) for (n, v, _) in nondet)
+            specfail = [t for t in r.get('spec_tags', []) if rc == 0 and self.spec_concrete(r, t, nd, obs)]
+            if failed or specfail:
+                tag = (failed + specfail)[0]
+                kind = 'assert' if failed else 'spec'
+                key = '%s:%s:%s' % (r['entry'], kind, tag)
+                what = '%s %s fails in %s%s with %s (found through failing contract precondition "%s")' % (
+                    kind, tag, r['entry'], tuple(r['args']), [(n, v) for (n, v, _) in nondet], o['tag'])
+                self._record(key, what, True, {'entry': r['entry'], 'args': r['args'], 'nondet': nondet,
+                                               'obligation': o, 'replay_stdout': lines[-10:], 'replay_rc': rc})
+                return
             self.inconclusive.append('%s: contract precondition "%s" can fail with %s (the contract does not '
                                      'cover this call)' % (r['name'], o['tag'], [(n, v) for (n, v, _) in nondet]))
             return
@@ -489,3 +506,21 @@ def parse_obs(lines):
 
 def _safe(s):
     return ''.join(c if c.isalnum() or c in '-_.' else '_' for c in s)[:120]
+
+
+def simple_kernel_main(prop, harnesses, items_fn, rule, bounds_fn, outside, extra_assumptions=(), with_zonedb=False,
+                       with_zonedbx=False, jobs=8, spec_concrete=None, pre=None):
+    """Boiler-plate main() for kernel-lemma checks: items_fn(args, thorough) -> work items."""
+    a = parse_args(prop)
+    kc = KernelCheck(a, harnesses, with_zonedb=with_zonedb, with_zonedbx=with_zonedbx)
+    if spec_concrete is not None:
+        kc.spec_concrete = spec_concrete
+    if pre is not None:
+        pre(kc)
+    kc.build()
+    thorough = a.tier == 'thorough'
+    items = items_fn(a, thorough)
+    res = kc.run_items(items, jobs=jobs)
+    kc.judge_kernel(res)
+    cov = kc.kernel_coverage(rule=rule, bounds=bounds_fn(a, thorough), outside=outside)
+    kc.finish(cov, list(extra_assumptions))
